@@ -5,6 +5,7 @@ import CssVerif.Lemmas.OutEffect
 import CssVerif.Lemmas.OutSolid
 import CssVerif.Lemmas.OutFixes
 import CssVerif.Lemmas.OutEffectLeaf
+import CssVerif.Lemmas.OutPairs
 /-!
 # C06 — serializer preferences do exactly what they document, in every combination
 
@@ -145,6 +146,44 @@ theorem plus_gt_tilde_spacing (p : Prefs) (il : Nat) (o : O) (c : Nat) (hc : c =
       (if isCombTy ty then p.selectorCombinatorSpacer else [32]) :: [c]
         :: (if isCombTy ty then p.selectorCombinatorSpacer else [32]) :: removeLastIfS o :=
   append_comb_char p il o c hc ty ht
+
+/-! ### no adjacent pair of lexemes fuses (token level of T6.2 for everything `Out.append` writes side by side) -/
+
+/-- T6.2, token level. `lexemes` = every punctuation character the tokenizer yields as CHAR plus one representative of
+every other token class that is handed to `Out.append` (46 lexemes, `Lemmas/OutPairs.lean`). Under the DEFAULT record
+every one of the 46 × 46 adjacent pairs, appended to a fresh `Out`, is written so that the tokenizer (model of C05)
+reads back exactly the tokens of the first followed by the tokens of the second: no pair fuses into another token
+(`/` `*` does not open a comment, `*` `=` is not `*=`, `#` `a` is not a HASH, `a` `(` not a FUNCTION, `1` `%` not a
+PERCENTAGE, `+` `1` not a signed number, `<` `!` … not CDO, …). Exhaustive over the list, one kernel evaluation per
+pair; for arbitrary words the gap is `words_are_separated`. -/
+theorem no_adjacent_pair_fuses_default (a b : Call) (ha : a ∈ lexemes) (hb : b ∈ lexemes) :
+    nonS (value (runCalls Prefs.default 1 [a, b]))
+      = nonS (value (runCalls Prefs.default 1 [a])) ++ nonS (value (runCalls Prefs.default 1 [b])) := by
+  have := pairs_default ha hb
+  simpa [pairOk] using this
+
+/-- … and under the layout strings of the MINIFIED preset (all spacers, indent and line separator empty) a pair fuses
+iff it is one of the four pairs of finding C06-op-equals-fusion (`*=`, `|=`, `^=`, `$=`): an exact characterisation. -/
+theorem adjacent_pairs_minified (a b : Call) (ha : a ∈ lexemes) (hb : b ∈ lexemes) :
+    (nonS (value (runCalls pMinLayout 1 [a, b]))
+        = nonS (value (runCalls pMinLayout 1 [a])) ++ nonS (value (runCalls pMinLayout 1 [b])))
+      ↔ knownFuse a b = false := by
+  have h := pairs_min ha hb
+  simp only [pairOk] at h
+  constructor
+  · intro e
+    have : (nonS (value (runCalls pMinLayout 1 [a, b]))
+        == nonS (value (runCalls pMinLayout 1 [a])) ++ nonS (value (runCalls pMinLayout 1 [b]))) = true := by
+      simpa using e
+    rw [this] at h
+    simpa using h.symm
+  · intro hk
+    rw [hk] at h
+    simpa using h
+
+/-- the lists are not empty: `/` and `*` are lexemes, and the pair is written `/ *` -/
+example : lx10 ∈ lexemes ∧ lx5 ∈ lexemes ∧ value (runCalls Prefs.default 1 [lx10, lx5]) = [47, 32, 42] := by
+  refine ⟨by simp [lexemes], by simp [lexemes], rfl⟩
 
 /-! ## T6.3 — the content preferences are DOM transformations -/
 
